@@ -195,9 +195,26 @@ impl<T> RcInner<T> {
         }
         if val.strong() == 0 {
             // The previous fetch_add created a permission to run decrement again.
-            // Now create an actual reference.
+            // Now create an actual reference. The pending `try_destruct` may already have
+            // consumed that permission (and re-deferred itself, or even destructed the object),
+            // so this step has to look at the count it is adding to.
             vpoint!(State, self as *const Self);
-            self.state.fetch_add(COUNT, Ordering::SeqCst);
+            let mut old = State::from_raw(self.state.load(Ordering::SeqCst));
+            loop {
+                if old.destructed() {
+                    return false;
+                }
+                let add = if old.strong() == 0 { 2 } else { 1 };
+                match self.state.compare_exchange(
+                    old.as_raw(),
+                    old.add_strong(add).as_raw(),
+                    Ordering::SeqCst,
+                    Ordering::SeqCst,
+                ) {
+                    Ok(_) => break,
+                    Err(curr) => old = State::from_raw(curr),
+                }
+            }
         }
         true
     }
